@@ -3,6 +3,8 @@ from flowpaths.utils import graphutils
 import flowpaths.utils as utils
 from flowpaths.abstractsourcesinkgraph import AbstractSourceSinkGraph
 from typing import Optional
+from fractions import Fraction
+import numbers
 
 
 class stDAG(AbstractSourceSinkGraph):
@@ -201,7 +203,13 @@ class stDAG(AbstractSourceSinkGraph):
 
             edge_demand = int(u != self.source and v != self.sink)
             if weight_function is not None:
+                # (the network simplex below is exact only on exact numbers: with float demands like 0.2 and 2.5
+                # it reports an infeasible network, hence non-integral weights are passed on as fractions)
                 edge_demand = weight_function.get((u, v), 0)
+                if not isinstance(edge_demand, numbers.Integral):
+                    edge_demand = Fraction(float(edge_demand))
+                else:
+                    edge_demand = int(edge_demand)
 
             demand[(u, v)] = edge_demand
             # adding the edge
@@ -292,10 +300,16 @@ class stDAG(AbstractSourceSinkGraph):
             DFS_find_saturating(self.source, visited)
             if weight_function is not None:
                 assert minFlowCost == sum(
-                    map(lambda edge: weight_function[edge], antichain)
+                    map(lambda edge: demand[edge], antichain)
                 )
             else:
                 assert minFlowCost == len(antichain)
+
+        # exact fractions are internal to this computation
+        if isinstance(minFlowCost, Fraction):
+            minFlowCost = int(minFlowCost) if minFlowCost.denominator == 1 else float(minFlowCost)
+
+        if get_antichain:
             return minFlowCost, antichain
 
         return minFlowCost
